@@ -31,8 +31,9 @@ CLAIM = {
             "stability of every computed closure / relaxation is checked too.",
     "note": "Refuted on the pinned tree (kept as _refuted/_partial pairs): a pi valve row yields an edge junction -> "
             "pipe-label-read-as-junction; unsupplied_junctions only looks at ext grids (circulation-pump loops reported "
-            "unsupplied, t-only ext grids reported as supply); include_compressors / respect_status_compressors are "
-            "ignored. The solver's reachability is compared on real pipeflow runs (monitor), not through C04's Coq "
+            "unsupplied, t-only ext grids reported as supply); notravjunctions next to an out-of-service junction "
+            "leave the adjacency inconsistent (not modelled, reported by a monitor). Every topology query is also "
+            "checked to leave the user tables bit-identical. The solver's reachability is compared on real pipeflow runs (monitor), not through C04's Coq "
             "model (position-based; no label-level Reach to import). Theorems closed under the global context.",
     "technique": "Coq proof over hand-written model + exact model/implementation correspondence + solver monitor",
     "design": "DESIGN.md 4/C18 + design_notes/C18.md",
@@ -569,7 +570,7 @@ def run(ctx):
         ctx.broken("translator", "create_nxgraph keyword list", repr(e))
         return
     ctx.extra["ignored_keywords_today"] = runner.ignored
-    n_graph, n_dist, n_solver = (120, 60, 60) if ctx.quick else (2000, 1000, 500)
+    n_graph, n_dist, n_solver = (100, 50, 50) if ctx.quick else (2000, 1000, 500)
     try:
         # the witnesses of the _refuted theorems first
         runner.graph_case(WITNESS, {})
